@@ -8,6 +8,7 @@ pub mod c05;
 pub mod c05w;
 pub mod c06;
 pub mod c06w;
+pub mod c08;
 pub mod c09;
 pub mod c10;
 pub mod c12;
@@ -15,7 +16,7 @@ pub mod c13;
 pub mod c15;
 pub mod c19;
 
-pub const ALL: &[&str] = &["C01", "C02", "C03", "C04", "C05", "C06", "C09", "C10", "C12", "C13", "C15", "C19"];
+pub const ALL: &[&str] = &["C01", "C02", "C03", "C04", "C05", "C06", "C08", "C09", "C10", "C12", "C13", "C15", "C19"];
 
 /// replay: Some(path) -> re-run the stored case (its "part" field selects the part)
 pub fn dispatch(prop: &str, tier: Tier, seed: u64, replay: Option<&str>) -> Option<Vec<PartReport>> {
@@ -28,6 +29,7 @@ pub fn dispatch(prop: &str, tier: Tier, seed: u64, replay: Option<&str>) -> Opti
         "C04" => c04::check(tier, seed, r),
         "C05" => c05::check(tier, seed, r),
         "C06" => c06::check(tier, seed, r),
+        "C08" => c08::check(tier, seed, r),
         "C09" => c09::check(tier, seed, r),
         "C10" => c10::check(tier, seed, r),
         "C12" => c12::check(tier, seed, r),
